@@ -39,6 +39,31 @@ pub mod verif_inspect {
         MAX_RESIZERS
     }
 
+    /// Simulates a writer that is suspended in the middle of restructuring a tree bin: overwrites the bin's
+    /// `lock_state` (WRITER = 1, WAITER = 2, READER = 4). Returns false if bin `i` is not a tree bin.
+    pub fn force_tree_lock_state<K, V, S>(m: &HashMap<K, V, S>, i: usize, state: i64) -> bool {
+        let guard = unsafe { Guard::unprotected() };
+        let t = m.table.load(Ordering::SeqCst, &guard);
+        if t.is_null() {
+            return false;
+        }
+        let t = unsafe { t.deref() };
+        if i >= t.len() {
+            return false;
+        }
+        let b = t.bin(i, &guard);
+        if b.is_null() {
+            return false;
+        }
+        match **unsafe { b.deref() } {
+            BinEntry::Tree(ref tb) => {
+                tb.lock_state.store(state, Ordering::SeqCst);
+                true
+            }
+            _ => false,
+        }
+    }
+
     /// One line per bin: `i E` (empty) | `i M` (moved) | `i L hash:key ...` | `i T root=<id> first=<id> | id hash key parent left right prev next red ...`
     /// Node identities are small integers assigned in list order (0 = null).
     pub fn dump<K: std::fmt::Debug, V, S>(m: &HashMap<K, V, S>) -> Vec<String> {
